@@ -29,9 +29,9 @@ ASSUMPTIONS = [
     "the probability clauses are theorems about the model (Props/C18.lean cg_prob): for every functional SCM compatible with "
     "the graph (Spec/Fscm.lean: finitely many independent exogenous variables with rational pmfs, mechanisms read parents in G, "
     "noise shared only along bidirected edges; latents with parents and continuous variables are outside the class), "
-    "P(event') = P(event) and 'inconsistent' => P(event) = 0. Side condition not proved here: the nodes are processed "
-    "parents-first (`hpf`: what networkx's topological_sort returns; the model's topological_sort is compared with networkx "
-    "on every C14 run, its correctness theorem belongs to C14)",
+    "P(event') = P(event) and 'inconsistent' => P(event) = 0. No side condition on the processing order is left: cg_prob is "
+    "about the order the model of topological_sort computes (Props/C14 topologicalSort_spec: a linear extension, hence "
+    "parents-first for every compatible model)",
     "the theorems are about the hand-written model; that the model is cg.py is the correspondence check of this run "
     "(every order of the worlds; sampling, not proof); the exact evaluation on sampled functional SCMs is an independent "
     "second line (it is what found the NetworkXError defect ce3041e)",
@@ -69,9 +69,79 @@ CORPUS = [
 ]
 
 
+def shared_parent_case(rng: random.Random):
+    """structured shape: a variable X observed in the factual world and intervened on (usually to the SAME value) in a
+    counterfactual world, no bidirected edge at X, >= 2 children that are ancestors of the event (the children of X merge one
+    after the other and X @ w is a parent that only the eliminated copies have); optionally a second intervened parent Z, a
+    common grandchild, bidirected edges away from X"""
+    k = rng.choice([2, 2, 3])
+    x, kids = 0, list(range(1, 1 + k))
+    nodes, di, bi = [x] + kids, [[x, c] for c in kids], []
+    nxt = 1 + k
+    z = None
+    if rng.random() < 0.6:
+        z = nxt
+        nxt += 1
+        nodes.append(z)
+        di += [[z, c] for c in kids if rng.random() < 0.7] or [[z, kids[0]]]
+    y = None
+    if rng.random() < 0.5:
+        y = nxt
+        nxt += 1
+        nodes.append(y)
+        di += [[c, y] for c in kids[:2]]
+    for a in nodes:
+        for b in nodes:
+            if a < b and x not in (a, b) and rng.random() < 0.12:
+                bi.append([a, b])
+    sx = rng.choice(["m", "p"])
+    world = [(x, sx if rng.random() < 0.85 else ("p" if sx == "m" else "m"))]
+    if z is not None and rng.random() < 0.7:
+        world.append((z, rng.choice(["m", "p"])))
+    ev = [[K.mkvar(x), sx]]
+    targets = kids if y is None or rng.random() < 0.5 else [y] + [c for c in kids if rng.random() < 0.5]
+    for t in targets:
+        ev.append([K.mkvar(t, world), rng.choice(["m", "p"])])
+    if z is not None and rng.random() < 0.3:
+        ev.append([K.mkvar(z), rng.choice(["m", "p"])])
+    rng.shuffle(nodes)
+    return {"g": {"nodes": nodes, "di": di, "bi": bi}, "event": K.sort_event(ev), "seed": rng.randrange(1 << 30)}
+
+
+def two_copies_case(rng: random.Random):
+    """structured shape: copies V@w1, V@w2 of a variable V whose ancestors no world touches (so both are the same random
+    variable as the factual V, which is usually NOT in the event), required to take equal or different values"""
+    n_anc = rng.choice([0, 1, 2])
+    anc = list(range(n_anc))
+    v_ = n_anc
+    others = [n_anc + 1, n_anc + 2] + ([n_anc + 3] if rng.random() < 0.4 else [])
+    nodes = anc + [v_] + others
+    di = [[a, v_] for a in anc] + [[a, b] for a in anc for b in anc if a < b and rng.random() < 0.5]
+    di += [[v_, o] for o in others if rng.random() < 0.5]
+    bi = [[a, b] for a in nodes for b in nodes if a < b and rng.random() < 0.15]
+    w1 = [(others[0], rng.choice(["m", "p"]))]
+    w2 = [(others[1], rng.choice(["m", "p"]))] + ([(others[0], rng.choice(["m", "p"]))] if rng.random() < 0.3 else [])
+    val = rng.choice(["m", "p"])
+    ev = [[K.mkvar(v_, w1), val], [K.mkvar(v_, w2), val if rng.random() < 0.4 else ("p" if val == "m" else "m")]]
+    if rng.random() < 0.25:
+        ev.append([K.mkvar(v_), rng.choice(["m", "p"])])
+    for o in others:
+        if rng.random() < 0.3:
+            ev.append([K.mkvar(o, rng.choice([w1, w2, []])), rng.choice(["m", "p"])])
+    seen, ev2 = set(), []
+    for var, x in ev:
+        if C.enc(var) not in seen:
+            seen.add(C.enc(var))
+            ev2.append([var, x])
+    rng.shuffle(nodes)
+    return {"g": {"nodes": nodes, "di": di, "bi": bi}, "event": K.sort_event(ev2), "seed": rng.randrange(1 << 30)}
+
+
 def cases(rng: random.Random, tier: str):
     out = [dict(c, seed=1000 + i) for i, c in enumerate(CORPUS)]
     out += K.load_corpus("C18")
+    out += [shared_parent_case(rng) for _ in range(150 if tier == "quick" else 600)]
+    out += [two_copies_case(rng) for _ in range(150 if tier == "quick" else 600)]
     n = 2500 if tier == "quick" else 9000
     for _ in range(n):
         big = rng.random() < (0.15 if tier == "quick" else 0.3)
@@ -186,6 +256,9 @@ def _semantic(case, res, exc=None):
     s = _structure(res)
     if s:
         return s
+    s = S.check_parents_represented(g, ev, res[1][1], res[1][2], case.get("seed", 0))
+    if s:
+        return s
     new_ev = [[[x if not isinstance(x, list) else x for x in var], val] for var, val in res[2]]
     w = S.check_same_probability(g, ev, new_ev, case.get("seed", 0))
     return None if w is None else f"relabelled event {new_ev} has another probability than the event: {w}"
@@ -291,8 +364,8 @@ MANIFEST = {
              "Lemma-24/25 merge loop (every parent of every un-intervened node is represented by a parent node of equal value; "
              "every prefix-restricted support of the event is unchanged). Structure: the construction is total on acyclic "
              "graphs, the returned graph is acyclic, its nodes are exactly the ancestors (inside it) of the relabelled event, "
-             "every relabelled event variable is a node, every directed edge lies over an edge of the input graph. One side "
-             "condition of cg_prob is assumed, not proved: nodes are processed parents-first (topological_sort)."),
+             "every relabelled event variable is a node, every directed edge lies over an edge of the input graph. The former "
+             "side condition of cg_prob (nodes are processed parents-first) is now proved from C14's topologicalSort_spec."),
     "note": ("Trusted: Lean kernel + the three standard axioms; the hand-written model tied to cg.py by differential testing "
              "under every order of the worlds set (sampling); Spec/Fscm.lean (functional SCMs with shared noise: the model class "
              "is discrete, independent root latents) is read, not verified, and is cross-checked against the independent Python "
